@@ -158,6 +158,8 @@ type Exec struct {
 	onceKeys     map[string]*Object
 	initWritten  map[*Object]bool
 	cur          *Frame
+	known        map[int]int8
+	knownLen     int
 	replace      map[string]string
 	funcIndex    map[string]*ssa.Function
 	varCache     map[int][]int
@@ -264,6 +266,8 @@ func (ex *Exec) resetPath() {
 	ex.onceDone = map[*Object]bool{}
 	ex.hashObjs = map[*Object]*HashObj{}
 	ex.nowCount = 0
+	ex.known = nil
+	ex.knownLen = 0
 	ex.pathModel = map[string]*Term{}
 	ex.lastNow = nil
 	ex.onceKeys = nil
@@ -869,6 +873,7 @@ func (ex *Exec) initPackage(p *ssa.Package) {
 	ex.initWritten = savedWritten
 	_ = savedPos
 	ex.pc = ex.pc[:savedPC]
+	ex.known = nil
 	ex.tolerant--
 	ex.globalInit[p] = 2
 }
@@ -1122,6 +1127,25 @@ func (ex *Exec) runBlock(fr *Frame) (bool, Value, *goPanic) {
 				panic(fmt.Sprintf("internal: if on %T", cv))
 			}
 			if !c.IsConst() && ex.tolerant == 0 {
+				// (C01) a condition that is literally part of the path
+				// condition (or its negation) is already decided: follow
+				// that side instead of building an ite / asking the solver.
+				if nc, dec := Not(c), 0; true {
+					for _, t := range ex.pc {
+						if t == c {
+							dec = 1
+							break
+						}
+						if t == nc {
+							dec = 2
+							break
+						}
+					}
+					if dec != 0 {
+						ex.gotoBlock(fr, b.Succs[dec-1])
+						return false, nil, nil
+					}
+				}
 				if j := ex.tryIfConvert(fr, b, c); j != nil {
 					fr.prev = nil
 					fr.block = j
@@ -1217,6 +1241,7 @@ func (ex *Exec) mergedCall(fn *ssa.Function, args []Value, env []Value, caller *
 	for {
 		ex.pos = 0
 		ex.pc = ex.pc[:basePC]
+		ex.known = nil
 		var val Value
 		var p *goPanic
 		ended := false
@@ -1268,6 +1293,7 @@ func (ex *Exec) mergedCall(fn *ssa.Function, args []Value, env []Value, caller *
 	}
 	ex.decisions, ex.pos = savedDec, savedPos
 	ex.pc = ex.pc[:basePC]
+	ex.known = nil
 	ex.mergedCalls++
 	if len(results) == 0 {
 		ex.end("infeasible", "merged call: no feasible path")
@@ -1441,4 +1467,43 @@ func (ex *Exec) rememberProven(cond *Term, sl []*Term) {
 	if len(ex.proven[cond.ID]) < 64 {
 		ex.proven[cond.ID] = append(ex.proven[cond.ID], set)
 	}
+}
+
+// knownValue reports whether the boolean term c is syntactically decided by
+// the conjuncts of the path condition (1 true, -1 false, 0 unknown).
+func (ex *Exec) knownValue(c *Term) int8 {
+	if ex.known == nil || ex.knownLen != len(ex.pc) {
+		// (re)build incrementally or from scratch
+		if ex.known == nil || ex.knownLen > len(ex.pc) {
+			ex.known = map[int]int8{}
+			ex.knownLen = 0
+		}
+		var add func(t *Term, pos bool)
+		add = func(t *Term, pos bool) {
+			switch {
+			case t.Op == OpNot:
+				add(t.Args[0], !pos)
+			case t.Op == OpAnd && pos:
+				add(t.Args[0], true)
+				add(t.Args[1], true)
+			case t.Op == OpOr && !pos:
+				add(t.Args[0], false)
+				add(t.Args[1], false)
+			default:
+				if pos {
+					ex.known[t.ID] = 1
+				} else {
+					ex.known[t.ID] = -1
+				}
+			}
+		}
+		for _, t := range ex.pc[ex.knownLen:] {
+			add(t, true)
+		}
+		ex.knownLen = len(ex.pc)
+	}
+	if c.Op == OpNot {
+		return -ex.known[c.Args[0].ID]
+	}
+	return ex.known[c.ID]
 }
